@@ -226,3 +226,31 @@ proof fn lemma_path_push(t: int, root: u64, st: Seq<SearchPath>, e: SearchPath)
         if k < st.len() { assert(n[k] == st[k] && n[k - 1] == st[k - 1]); }
     }
 }
+
+// the stack Cursor::advance produces is again a path from the root (no assumption about where the old one ended)
+proof fn lemma_moved_path(t: int, root: u64, old_st: Seq<SearchPath>, fin: Seq<SearchPath>, j: int)
+    requires tree_ok(t), path_ok(t, root, old_st), moved_one_slot(t, old_st, fin, j),
+    ensures path_ok(t, root, fin),
+{
+    reveal(path_ok);
+    let m = fin.len() as int;
+    assert forall|i: int| 0 <= i < j implies old_st[i] == fin[i] by {
+        assert(old_st.subrange(0, j)[i] == fin.subrange(0, j)[i]);
+    }
+    if j > 0 { assert(fin[0] == old_st[0]); }
+    assert forall|k: int| 1 <= k < m implies !node_leaf(t, fin[k - 1].id)
+        && same_node(t, (#[trigger] fin[k]).id, child_id(t, fin[k - 1].id, fin[k - 1].index as int)) by {
+        if k < j {
+            assert(fin[k] == old_st[k] && fin[k - 1] == old_st[k - 1]);
+        } else if k == j {
+            assert(fin[k - 1] == old_st[k - 1]);
+            assert(same_node(t, old_st[k].id, child_id(t, old_st[k - 1].id, old_st[k - 1].index as int)));
+        }
+    }
+}
+proof fn lemma_path_root_only(t: int, root: u64, st: Seq<SearchPath>, fin: Seq<SearchPath>)
+    requires path_ok(t, root, st), fin.len() == 1, fin[0] == st[0],
+    ensures path_ok(t, root, fin),
+{
+    reveal(path_ok);
+}
